@@ -29,6 +29,28 @@ def runspec(world, flags):
     select = world.opts.get("select")
 
     def is_selected(e):
+        te = world.opts.get("tag_expr")
+        if te:
+            # SelectSpec: the expression's formula over (own + inherited) symbolic tag presence
+            import z3
+            from symx import SymBool, zbool
+            from . import tagspec
+            universe = list(world.opts["tag_universe"])
+            acc = {}
+            for t in e.effective_tags():
+                if "__" in t:
+                    name, eid = t.split("__", 1)
+                    acc.setdefault(name, []).append(zbool(world.has(eid, name)))
+                else:
+                    acc.setdefault(t, []).append(z3.BoolVal(True))
+                    name = t
+                if name not in universe:
+                    universe.append(name)
+            member = {t: (z3.Or(acc[t]) if t in acc else z3.BoolVal(False)) for t in universe}
+            f = tagspec.formula(te["tree"], member, universe)
+            if world.sx.symbolic:
+                return bool(SymBool(f))
+            return z3.is_true(z3.simplify(f))
         if not select:
             return True
         r = False
